@@ -34,7 +34,8 @@ fn small_game(rng: &mut Rng, case: u64, only: &str, prop: &str) -> (String, vh::
     if case % 4 == 2 || only_wmf {
         // lock-ordering shape: each player's single infoset lies above the other's on some paths
         // and below it on others; enough chance outcomes for the subtrees to be separate tasks
-        let (m, n) = (rng.range(4, 9), rng.range(2, 3));
+        // at least six outcomes: with two threads (task target 6) the subtrees themselves are the tasks
+        let (m, n) = (rng.range(6, 9), rng.range(2, 3));
         return (format!("who_moves_first(outcomes={},actions={})", m, n), gen::who_moves_first(rng, m, n));
     }
     if case % 4 == 3 {
@@ -111,7 +112,13 @@ fn main() {
         }
         let params = if rng.chance(0.7) { ParamSpec::random(&mut rng) } else { ParamSpec::random_custom(&mut rng) };
         let iters = *rng.pick(&[1u64, 2, 2, 3]);
-        let threads = if desc.starts_with("shared_chance_fan") { 3 } else { *rng.pick(&[2usize, 2, 3]) };
+        let threads = if desc.starts_with("shared_chance_fan") {
+            3
+        } else if desc.starts_with("who_moves_first") {
+            2
+        } else {
+            *rng.pick(&[2usize, 2, 3])
+        };
         let sseed = rng.next();
         let sampling = move || if method == SolveMethod::Full { Sampling::Production } else { Sampling::Seeded(sseed) };
         let base_cfg = Cfg { method, iters, max_reg: 0.0, threads: 1, params };
